@@ -79,6 +79,9 @@ def model_check(ctx: Ctx, npoints: int, with_import: bool, strict_parts: list[st
     expect_clean(res, "Backend.tla as built: every failure goes through a named deviation")
     ctx.add_tlc(res)
     ctx.note("model_states_as_built", res.distinct)
+    ctx.note("model_config", f"workload P->C->G (shallow P), 2 versions per task, MaxRuns=3, NPoints={npoints}, "
+                             f"WithImport={with_import}, injections: none | fault at any point | crash "
+                             "before/after any commit; repair switches all FALSE (as built)")
     table: dict = {}
     for r in res.recs("IDLE"):
         k = (_inj_key(r["inj"]), json.dumps(r["hist"]))
